@@ -1271,8 +1271,12 @@ pub fn run(args: &Args, out: &mut Out) {
 
     if args.extra.iter().any(|e| e == "synprobe") {
         // one request per syntax category and target: the category's template alone (development aid)
-        for cat in syn_categories() {
-            if let Some(text) = syn_single(cat) {
+        for (cat, alt) in syn_variants() {
+            if std::env::var("SYNPROBE_NAMES").is_ok() {
+                println!("{}#{}", cat, alt);
+                continue;
+            }
+            if let Some(text) = syn_single(cat, alt) {
                 for tgt in ALL_TARGETS {
                     println!("C08.compile\t{}\tall\t1\t-\thex:{}", tgt.name(), hex(text.as_bytes()));
                 }
@@ -1281,7 +1285,8 @@ pub fn run(args: &Args, out: &mut Out) {
         return;
     }
     if let Some(cat) = args.extra.iter().find_map(|e| e.strip_prefix("synshow=")) {
-        print!("{}", syn_single(cat).unwrap_or_default());
+        let (c, a) = cat.split_once('#').map(|(c, a)| (c, a.parse().unwrap_or(0))).unwrap_or((cat, 0));
+        print!("{}", syn_single(c, a).unwrap_or_default());
         return;
     }
     if let Some(spec) = args.extra.iter().find_map(|e| e.strip_prefix("dump=")) {
@@ -1372,7 +1377,7 @@ pub fn run(args: &Args, out: &mut Out) {
             let kind = q.input.split(':').next().unwrap_or("?");
             let ok = r.obs.starts_with("ok:");
             if kind == "synone" && ok {
-                if let Some(c) = q.input.split(':').nth(1).and_then(|s| s.parse::<usize>().ok()).and_then(|k| syn_categories().get(k).copied()) {
+                if let Some(c) = q.input.split(':').nth(1).and_then(|s| s.parse::<usize>().ok()).and_then(|k| syn_variants().get(k).map(|v| v.0)) {
                     hist.add(&format!("catok/syn/{}", c));
                 }
             }
